@@ -1123,6 +1123,9 @@ def handwritten_mixed():
             else:
                 fs.append(uint_field("status_hi", [(lo + w, base - 1)], access="r"))
         out.append(bitfield_case("mh_cmd%d" % k, "mixed", base, fs, name="Reg", default=(default_spec((1 << base) - 1) if k % 3 == 0 else None)))
+    # arbitrary-int bases with an array whose count x stride exceeds the storage integer although every element lies below bit N (size and alignment stay those of the storage integer)
+    for k, (base, ew, stride) in enumerate(((20, 2, 17), (12, 1, 9), (40, 4, 35), (24, 4, 20), (65, 8, 57), (100, 16, 84), (9, 1, 8))):
+        out.append(bitfield_case("mh_wide_stride%d" % k, "mixed", base, [uint_field("e", [(0, ew - 1)], array=arr(2, stride)), bool_field("mid", ew)], name="Reg", default=(default_spec(1 << (base - 1)) if k % 2 else None)))
     # accepted spellings of a list: under `bit(`, single-entry lists
     f1 = dict(uint_field("scr", [(9, 9), (2, 2), (12, 12), (5, 5)]), attr_text="#[bit([9, 2, 12, 5], rw)]")
     f2 = dict(uint_field("one", [(3, 3)]), attr_text="#[bits([3], rw)]", form="list")
